@@ -329,6 +329,33 @@ def p_for_break(k, kind):
     return obs
 
 
+def p_while_in_for(k, kind):
+    """a while loop directly inside the body of a secret-bounded for loop"""
+    br = k.br
+    _ = br.BranchingValues()
+    _.s = 0
+    m = k.S("b")
+    for i in br._range(k.S("n"), max=2, ctx=_):
+        j = 0
+        while br._while(j != m, ctx=_) and j != 2:
+            _.s = _.s + i + 1
+            j += 1
+        br._endwhile(ctx=_)
+    br._endfor(ctx=_)
+    nv, bv = k.v("n"), k.v("b")
+    s = 0
+    for i in range(2):
+        if i >= nv:
+            break
+        j = 0
+        while j != bv and j != 2:
+            s = s + i + 1
+            j += 1
+    obs = []
+    compare(obs, _, {"s": s})
+    return obs
+
+
 def p_forcheck(k, kind):
     """secret bound checked against the public maximum: a bound above the maximum must be rejected"""
     br = k.br
@@ -376,14 +403,15 @@ PROGRAMS = {"elif2": (p_elif2, ("c", "d", "e", "x")), "elif_cmp": (p_elif_cmp, (
             "lazy_cmp_branches": (p_lazy_cmp_branches, ("c", "x", "y")),
             "if_else": (p_if_else, ("c", "x")), "if_only": (p_if_only, ("c", "x", "y")), "elif": (p_elif, ("c", "d", "x")),
             "nested": (p_nested, ("c", "d", "x")), "nestedop": (p_nested_op, ("c", "x")), "matrix": (p_matrix, ("c", "x")), "while": (p_while, ("n", "b", "x")), "for": (p_for, ("n", "x")),
-            "while_pubbreak": (p_while_pubbreak, ("n", "x")), "for_break": (p_for_break, ("n", "b", "x")), "forcheck": (p_forcheck, ("n",)),
+            "while_pubbreak": (p_while_pubbreak, ("n", "x")), "for_break": (p_for_break, ("n", "b", "x")),
+            "while_in_for": (p_while_in_for, ("n", "b")), "forcheck": (p_forcheck, ("n",)),
             "lazy": (p_lazy, ("c", "x", "y")), "lazy_div": (p_lazy_div, ("x", "y"))}
 
 
 def build(n=4, tier="quick"):
     ents = []
     for nm, (prog, ins) in PROGRAMS.items():
-        kinds = ("plain", "cmp") if nm not in ("lazy_div", "while", "for", "forcheck") else ("cmp",)
+        kinds = ("plain", "cmp") if nm not in ("lazy_div", "while", "for", "forcheck", "while_in_for") else ("cmp",)
         if nm in ("lazy", "lazy_cmp_branches"):
             kinds = ("bool", "cmp")
         if nm in ("while_pubbreak", "for_break"):
